@@ -146,7 +146,7 @@ def r18c(ctx):
 
 @rule(
     "R17a",
-    ["C17"],
+    ["C17", "C11", "C06"],
     """CUT-POINT WIRING: (a) to_legacy_dataframe hands new_dd_object the graph, name, meta and divisions of ONE expression
     variable (the optimized collection) - mixing the optimized graph with the un-optimized divisions breaks as soon
     as optimization changes the partition count; (b) __dask_postpersist__ derives meta, divisions, keys and name from the
